@@ -206,6 +206,9 @@ pub struct AttrCase {
     pub form: u8,
     pub instruments: Vec<InstGen>,
     pub messages: Vec<MsgGen>,
+    /// subscriptions handed to the mapper a second time: (position selector, instrument selector)
+    #[serde(default)]
+    pub repeats: Vec<(u16, u16)>,
 }
 
 // ---------------------------------------------------------------------------------------------
@@ -217,6 +220,14 @@ fn yymmdd(d: (i32, u32, u32)) -> String {
 }
 fn yyyymmdd(d: (i32, u32, u32)) -> String {
     format!("{:04}{:02}{:02}", d.0, d.1, d.2)
+}
+
+/// Option strikes: (as the venue writes them, mantissa, scale). Index = `strike % STRIKES.len()`.
+const STRIKES: [(&str, i64, u32); 9] = [("1", 1, 0), ("2", 2, 0), ("3", 3, 0), ("0.33", 33, 2), ("1.5", 15, 1), ("0.5", 5, 1), ("35000.5", 350005, 1), ("35000", 35000, 0), ("2.25", 225, 2)];
+
+fn strike_of(sel: u16) -> (&'static str, Decimal) {
+    let (text, m, s) = STRIKES[sel as usize % STRIKES.len()];
+    (text, Decimal::new(m, s))
 }
 
 #[derive(Debug, Clone, PartialEq)]
@@ -238,7 +249,7 @@ fn kind_for(cell: Cell, g: &InstGen) -> (MarketDataInstrumentKind, (i32, u32, u3
         kind: if g.call { OptionKind::Call } else { OptionKind::Put },
         exercise: OptionExercise::European,
         expiry,
-        strike: Decimal::from(g.strike as u32 + 1),
+        strike: strike_of(g.strike).1,
     });
     use Cell::*;
     let k = match cell {
@@ -260,7 +271,7 @@ fn kind_for(cell: Cell, g: &InstGen) -> (MarketDataInstrumentKind, (i32, u32, u3
 fn venue_market(cell: Cell, base: &str, quote: &str, kind: &MarketDataInstrumentKind, expiry: (i32, u32, u32), strike: u16, call: bool) -> String {
     let (b, q) = (base.to_uppercase(), quote.to_uppercase());
     let cp = if call { "C" } else { "P" };
-    let strike = strike as u32 + 1;
+    let strike = strike_of(strike).0;
     use Cell::*;
     match cell {
         BinanceSpotTrades | BinanceSpotL1 | BinanceSpotL2 | BinanceFutTrades | BinanceFutL1 | BinanceFutL2 | BinanceFutLiquidations | BitmexTrades | BybitSpotTrades | BybitPerpTrades => format!("{b}{q}"),
@@ -502,6 +513,9 @@ struct Plan {
     chan_ids: Vec<u32>,
     /// order in which the venue confirms subscriptions
     confirm_order: Vec<usize>,
+    /// the subscription batch handed to the mapper, as indices into `insts` (every instrument once,
+    /// some a second time)
+    batch: Vec<usize>,
 }
 
 impl Plan {
@@ -568,7 +582,7 @@ where
     <TxOf<E, I, K> as Transformer>::Input: DeserializeOwned,
     MarketEvent<I::Key, K::Event>: SnapshotFor<I::Key>,
 {
-    let subs: Vec<Subscription<E, I, K>> = instruments.iter().map(|i| Subscription::new(exchange.clone(), i.clone(), kind.clone())).collect();
+    let subs: Vec<Subscription<E, I, K>> = plan.batch.iter().map(|i| Subscription::new(exchange.clone(), instruments[*i].clone(), kind.clone())).collect();
     let meta = WebSocketSubMapper::map(&subs);
     let mut map = meta.instrument_map;
     if map.0.len() != instruments.len() {
@@ -808,11 +822,19 @@ fn plan_of(case: &AttrCase) -> (Plan, u32, bool, bool) {
     if case.form % 2 == 1 && n > 1 {
         confirm_order.swap(0, n - 1);
     }
-    (Plan { cell, insts, msgs, chan_ids, confirm_order }, excluded, prefix_pair, year_boundary)
+    let mut batch: Vec<usize> = (0..n).collect();
+    // Bitfinex answers every request with its own confirmation (a repeat is refused by the venue)
+    if cell != Cell::BitfinexTrades && n > 0 {
+        for (pos, which) in case.repeats.iter().take(2) {
+            let at = (*pos as usize * (batch.len() + 1)) >> 16;
+            batch.insert(at, (*which as usize * n) >> 16);
+        }
+    }
+    (Plan { cell, insts, msgs, chan_ids, confirm_order, batch }, excluded, prefix_pair, year_boundary)
 }
 
 fn inst_gen() -> impl Strategy<Value = InstGen> {
-    (0u8..12, 0u8..12, 0u8..4, 0u8..8, prop_oneof![Just(34_999u16), 0u16..3], any::<bool>()).prop_map(|(base, quote, kind_sel, expiry_sel, strike, call)| InstGen { base, quote, kind_sel, expiry_sel, strike, call })
+    (0u8..12, 0u8..12, 0u8..4, 0u8..8, 0u16..9, any::<bool>()).prop_map(|(base, quote, kind_sel, expiry_sel, strike, call)| InstGen { base, quote, kind_sel, expiry_sel, strike, call })
 }
 
 fn trade_gen() -> impl Strategy<Value = TradeGen> {
@@ -830,8 +852,9 @@ impl Check for Attribution {
             0u8..3,
             prop::collection::vec(inst_gen(), 2..=5),
             prop::collection::vec((any::<u16>(), prop::bool::weighted(0.35), prop::collection::vec(trade_gen(), 1..4)), 1..8),
+            prop_oneof![3 => Just(vec![]), 1 => prop::collection::vec((any::<u16>(), any::<u16>()), 1..=2)],
         )
-            .prop_map(|(cell, form, instruments, msgs)| AttrCase { cell, form, instruments, messages: msgs.into_iter().map(|(target, lookalike, trades)| MsgGen { target, lookalike, trades }).collect() })
+            .prop_map(|(cell, form, instruments, msgs, repeats)| AttrCase { cell, form, instruments, messages: msgs.into_iter().map(|(target, lookalike, trades)| MsgGen { target, lookalike, trades }).collect(), repeats })
             .boxed()
     }
 
@@ -851,6 +874,9 @@ impl Check for Attribution {
                 rep.class(LABELS[case.cell as usize % 21][case.form as usize % 3]);
                 rep.class_if(prefix_pair, "instruments_sharing_a_prefix");
                 rep.class_if(year_boundary, "okx_expiry_at_year_boundary");
+                rep.class_if(plan.batch.len() > plan.insts.len(), "subscription_repeated_in_batch");
+                rep.class_if(plan.batch.iter().enumerate().any(|(p, i)| plan.batch[..p].contains(i) && plan.batch[p + 1..].iter().any(|j| !plan.batch[..p].contains(j))), "repeat_followed_by_new_market");
+                rep.class_if(plan.insts.iter().any(|i| matches!(&i.kind, MarketDataInstrumentKind::Option(o) if o.strike.scale() > 0)), "option_with_fractional_strike");
                 rep.class_if(hits > 0, "message_for_subscribed_market");
                 rep.class_if(misses > 0, "message_for_unsubscribed_lookalike");
                 rep.nontrivial = plan.insts.len() >= 2 && prefix_pair && hits > 0 && misses > 0;
@@ -861,7 +887,7 @@ impl Check for Attribution {
 }
 
 pub fn run(ctx: &mut Ctx) {
-    ctx.rule = "attribution: a (connector, kind) pair out of the 21 the dynamic builder supports x an instrument form (MarketDataInstrument / Keyed<K,_> / MarketInstrumentData<K>) x 2..5 instruments with names from an adversarial pool (mixed case, digits, shared prefixes: btc/btcu/usd/usdt/usdc/1inch/xbt/t/sd ...) and kinds legal for the venue (expiries incl. year-boundary dates, strikes, call/put for Gateio/OKX futures and options) x 1..7 messages each for a subscribed market or an unsubscribed look-alike (35%), 1..3 trades per message on batching venues. Venue market strings and payload schemas come from an independent table written from the venue formats the repo documents. Pairs of instruments whose venue market strings coincide are dropped (counted). non-trivial = >= 2 subscribed instruments sharing a prefix AND both a hit and a miss message; every one of the 63 (connector, kind, form) cells must be exercised or the run is inconclusive.".into();
+    ctx.rule = "attribution: a (connector, kind) pair out of the 21 the dynamic builder supports x an instrument form (MarketDataInstrument / Keyed<K,_> / MarketInstrumentData<K>) x 2..5 instruments with names from an adversarial pool (mixed case, digits, shared prefixes: btc/btcu/usd/usdt/usdc/1inch/xbt/t/sd ...) and kinds legal for the venue (expiries incl. year-boundary dates, strikes incl. fractional ones such as 0.33 / 1.5 / 35000.5, call/put for Gateio/OKX futures and options); in a quarter of the cases 1..2 subscriptions appear a second time in the batch handed to the mapper (not for Bitfinex) x 1..7 messages each for a subscribed market or an unsubscribed look-alike (35%), 1..3 trades per message on batching venues. Venue market strings and payload schemas come from an independent table written from the venue formats the repo documents. Pairs of instruments whose venue market strings coincide are dropped (counted). non-trivial = >= 2 subscribed instruments sharing a prefix AND both a hit and a miss message; every one of the 63 (connector, kind, form) cells must be exercised or the run is inconclusive.".into();
     ctx.assumptions = vec![
         "venues behave as their documented formats say (market strings, payload shapes, Bitfinex channel-id assignment in `subscribed` replies)".into(),
         "prices/amounts compared as the parsed decimal strings (f64 fields within 1e-12 relative); exchange time within 1 ms; Bitfinex / Gateio-futures sign-encoded amounts compared by magnitude".into(),
